@@ -1,15 +1,20 @@
 #!/bin/bash
-# usage: confirm_mutant.sh <mutant_dir> <seed_id> <mode: debug|release|miri> 
-# Confirms a seeded change in a scratch worktree (/tmp/wt/confirm): demo passes clean, fails with the patch, baseline still passes.
-# Writes /verif/seeded/<seed_id>/{patch.diff,<demo files>,confirm.json}
-M=$1; ID=$2; MODE=${3:-debug}
+# usage: confirm_mutant.sh <mutant_dir> <seed_id> <mode: debug|release|miri> [patch file name]
+# Confirms a seeded change in a scratch worktree (/tmp/wt/confirm): the demonstration passes on the clean tree, fails with
+# the patch, and the pinned baseline still passes with the patch. Writes /verif/seeded/<seed_id>/{patch.diff,<demo>,confirm.json}
+M=$1; ID=$2; MODE=${3:-debug}; PF=${4:-patch.diff}
 W=/tmp/wt/confirm
 export CARGO_NET_OFFLINE=true RUST_BACKTRACE=0
 if [ ! -d $W ]; then git -C /repo worktree add -q --detach $W HEAD; fi
-cd $W && git checkout -q --detach $(git -C /repo rev-parse HEAD) && git checkout -q -- . && git clean -fdq -e target -e target-rel
-OUT=/verif/seeded/$ID; mkdir -p $OUT
-cp $M/patch.diff $OUT/patch.diff
-DEMOS=$(ls $M/*.rs 2>/dev/null)
+cd $W || exit 3
+git reset -q --hard
+git checkout -q --detach "$(git -C /repo rev-parse HEAD)"
+git reset -q --hard
+git clean -fdq -e target -e target-rel
+OUT=/verif/seeded/$ID
+mkdir -p $OUT
+cp $M/$PF $OUT/patch.diff
+DEMOS=$(ls $M/*.rs 2>/dev/null | grep -v "twin\|must_not\|compile_fail")
 for d in $DEMOS; do cp $d tests/; cp $d $OUT/; done
 [ -f $M/README.md ] && cp $M/README.md $OUT/README.agent.md
 run_demo() {
@@ -17,30 +22,38 @@ run_demo() {
   for d in $DEMOS; do
     t=$(basename $d .rs)
     case $MODE in
-      release) timeout 900 cargo test --release --offline --test $t >$OUT/.demo.log 2>&1 || rc=1;;
-      miri) MIRIFLAGS="-Zmiri-many-seeds=0..4 -Zmiri-disable-isolation" timeout 1500 cargo +nightly miri test --offline --test $t >$OUT/.demo.log 2>&1 || rc=1;;
-      *) timeout 900 cargo test --offline --test $t >$OUT/.demo.log 2>&1 || rc=1;;
+      release) timeout 1200 cargo test --release --offline --test $t >$OUT/.demo.log 2>&1 || rc=1 ;;
+      miri) MIRIFLAGS="-Zmiri-many-seeds=0..4 -Zmiri-disable-isolation" timeout 2400 cargo +nightly miri test --offline --test $t >$OUT/.demo.log 2>&1 || rc=1 ;;
+      *) timeout 1200 cargo test --offline --test $t >$OUT/.demo.log 2>&1 || rc=1 ;;
     esac
   done
   return $rc
 }
 run_demo; CLEAN=$?
 APPLY=ok
-git apply $OUT/patch.diff 2>/dev/null || git apply --3way $OUT/patch.diff 2>/dev/null || APPLY=fail
+git apply $OUT/patch.diff 2>/dev/null || APPLY=fail
 if [ $APPLY = ok ]; then
-  git diff -- src > $OUT/patch.diff
   cargo build --offline >/dev/null 2>&1; BUILD=$?
   run_demo; MUT=$?
   tail -5 $OUT/.demo.log > $OUT/demo_with_patch.tail.txt
   for d in $DEMOS; do rm -f tests/$(basename $d); done
   BASE=$(/tmp/tools/run_baseline.sh $W 2>&1 | grep -E "^passed|MISSING" | tr '\n' ';')
-  case "$BASE" in *"baseline_missing 0"*) ;; *) sleep 20; BASE="retry: $(/tmp/tools/run_baseline.sh $W 2>&1 | grep -E "^passed|MISSING" | tr '\n' ';') first: $BASE";; esac
-else BUILD=-1; MUT=-1; BASE="n/a"; fi
+  if ! echo "$BASE" | grep -q "baseline_missing 0"; then
+    sleep 30
+    BASE2=$(/tmp/tools/run_baseline.sh $W 2>&1 | grep -E "^passed|MISSING" | tr '\n' ';')
+    BASE="retry: $BASE2 first: $BASE"
+  fi
+else
+  BUILD=-1; MUT=-1; BASE="n/a"
+fi
 rm -f $OUT/.demo.log
-git checkout -q -- . ; git clean -fdq -e target -e target-rel
-python3 - <<P
-import json
-json.dump({"seed": "$ID", "mode": "$MODE", "repo_head": "$(git -C /repo rev-parse --short HEAD)", "apply": "$APPLY", "build_rc": $BUILD,
- "demo_clean_rc": $CLEAN, "demo_with_patch_rc": $MUT, "baseline_with_patch": "$BASE"}, open("$OUT/confirm.json","w"), indent=1)
+git reset -q --hard
+git clean -fdq -e target -e target-rel
+python3 - "$ID" "$MODE" "$APPLY" "$BUILD" "$CLEAN" "$MUT" "$BASE" "$OUT" <<'P'
+import json, sys, subprocess
+sid, mode, app, build, clean, mut, base, out = sys.argv[1:9]
+head = subprocess.run(["git", "-C", "/repo", "rev-parse", "--short", "HEAD"], capture_output=True, text=True).stdout.strip()
+json.dump({"seed": sid, "mode": mode, "repo_head": head, "apply": app, "build_rc": int(build), "demo_clean_rc": int(clean),
+           "demo_with_patch_rc": int(mut), "baseline_with_patch": base}, open(out + "/confirm.json", "w"), indent=1)
 P
-cat $OUT/confirm.json | tr '\n' ' '; echo
+tr '\n' ' ' < $OUT/confirm.json; echo
